@@ -3,7 +3,8 @@
 # file (must reproduce: exit 1), undo the change, replay again (must not: exit 0).
 cd /verif || exit 2
 [ -n "$(git -C /repo status --porcelain)" ] && { echo "/repo not clean"; exit 2; }
-trap 'git -C /repo checkout -q -- . 2>/dev/null' EXIT
+EVBAK=$(mktemp -d /var/tmp/verif-evidence-XXXXXX); cp evidence/*.json $EVBAK/ 2>/dev/null
+trap 'git -C /repo checkout -q -- . 2>/dev/null; cp $EVBAK/*.json /verif/evidence/ 2>/dev/null; rm -rf $EVBAK' EXIT
 for id in "$@"; do
   prop=$(jq -r .property seeded/$id/meta.json)
   git -C /repo apply /verif/seeded/$id/patch.diff || continue
